@@ -21,7 +21,7 @@ ASSUMPTIONS = ["only sampled interleavings are observed (no claim about all sche
                "yield injection happens only at Python line boundaries, where the interpreter may switch threads anyway"]
 CASE_TIMEOUT = 600
 
-OPS = ["full", "cols", "filter", "cats", "slice", "iter", "head", "stats", "pickle", "count", "pick"]
+OPS = ["full", "cols", "filter", "cats", "slice", "iter", "head", "stats", "pickle", "count", "pick", "pstats", "slice_stats"]
 # (ParquetFile.dtypes is a plain attribute that every to_pandas(categories=...) call overwrites, sequentially too; it is not one
 #  of the operations the property lists and is not used as a probe here)
 
@@ -71,7 +71,7 @@ def make_ops(rng, nrg, n):
         elif k == "filter":
             op["lo"] = int(rng.integers(0, 200))
             op["f"] = ["rid", "v1", "ts", "v1in", "mix", "ts"][int(rng.integers(0, 6))]
-        elif k in ("slice",):
+        elif k in ("slice", "slice_stats"):
             a, b = sorted(int(x) for x in rng.integers(0, nrg + 1, 2))
             op["a"], op["b"] = a, b
         elif k == "pick":
@@ -118,6 +118,10 @@ def do_op(pf, op):
         return _hash_df(pf.head(op["n"]))
     if k == "stats":
         s = A.statistics(pf)
+        return hashlib.sha1(repr(sorted((a, sorted((c, repr(v)) for c, v in b.items())) for a, b in s.items())).encode()).hexdigest()[:16]
+    if k in ("pstats", "slice_stats"):
+        # the statistics PROPERTY of the handle / of a handle sliced from it (kept per handle once computed)
+        s = (pf if k == "pstats" else pf[op["a"]:op["b"]]).statistics
         return hashlib.sha1(repr(sorted((a, sorted((c, repr(v)) for c, v in b.items())) for a, b in s.items())).encode()).hexdigest()[:16]
     if k == "pickle":
         return _hash_df(pickle.loads(pickle.dumps(pf)).to_pandas())
@@ -193,7 +197,8 @@ def run_case(case):
                            "ts": pd.Timestamp("2021-01-01") + pd.to_timedelta(np.arange(n), "h")})
         scheme = case["scheme"]
         path = C.fresh_path(".parq" if scheme == "simple" else "")
-        fastparquet.write(path, df, row_group_offsets=10, file_scheme=scheme, stats=True)
+        # (every other dataset leaves the bounds of its text columns out, as the default does: statistics then carry "no bound" entries)
+        fastparquet.write(path, df, row_group_offsets=10, file_scheme=scheme, stats=True if case["seed"] % 2 else "auto")
         pf = fastparquet.ParquetFile(path)
         nrg = len(pf.row_groups)
         T = case["threads"]
@@ -209,7 +214,8 @@ def run_case(case):
             for op in plan:
                 key = repr(sorted(op.items()))
                 if key not in baseline:
-                    baseline[key] = do_op(base_pf, op)
+                    # "the result it would obtain alone": statistics operations on a handle of their own (they keep state on the handle)
+                    baseline[key] = do_op(fastparquet.ParquetFile(path) if op["k"] in ("pstats", "slice_stats", "stats") else base_pf, op)
         parent_before = do_op(base_pf if fresh else pf, {"k": "full"})    # a fresh handle is not touched before the threads start
         logs = [[] for _ in range(T)]
         barrier = threading.Barrier(T)
@@ -266,6 +272,7 @@ def run_case(case):
         if parent_after != parent_before or len(pf.row_groups) != nrg:
             res["failures"].append({"kind": "parent_handle_disturbed", "threads": T, "scheme": scheme})
         counters["ops_checked"] = len(allops)
+        counters["statistics_property_ops"] = sum(1 for e in allops if e[1]["k"] in ("pstats", "slice_stats"))
         counters["ops_overlapping"] = n_overlap
         counters["yield_injections"] = y.hits
         counters["runs"] = 1
@@ -357,4 +364,4 @@ def run_write_case(case, rng, res, counters, y):
 
 
 def required(tier):
-    return {"runs": 60, "ops_overlapping": 1000, "ov_slice_vs_read": 100, "part_files_compared": 30, "yield_injections": 1000, "fresh_handle_runs": 30}
+    return {"runs": 60, "ops_overlapping": 1000, "ov_slice_vs_read": 100, "part_files_compared": 30, "yield_injections": 1000, "fresh_handle_runs": 30, "statistics_property_ops": 300}
